@@ -206,6 +206,8 @@ CORPUS = [
      "vdb": {"a/d-3": {"rdepend": "a/d", "pdepend": "a/d a/b", "slot": "1"}, "a/e-1": {"rdepend": "<a/d-2 a/e"}}, "targets": ["a/e", "a/c"], "mode": "upgrade"},
     # a refused blocker alternative of an any-of group stayed behind as a limiter (fix b93a6a9): a/d-1's identical blocker then saw no conflict
     {"src": {"a/b-1": {"rdepend": "|| ( !!a/e a/c ) a/d"}, "a/c-1": {}, "a/d-1": {"rdepend": "!!a/e"}}, "vdb": {"a/e-1": {}}, "targets": ["a/b"], "mode": "upgrade"},
+    # a second package carrying an already active blocker was accepted next to the force-loaded blocked package (fix 0a3cc5d)
+    {"src": {"a/f-2": {"rdepend": "!a/d"}}, "vdb": {"a/c-1": {"rdepend": "!a/d", "pdepend": "a/f"}, "a/d-1": {}}, "targets": ["a/c"], "mode": "upgrade"},
     # upgrade of an installed package, weak blocker resolved by upgrading the blocked package, any-of with an installed alternative
     {"src": {"a/b-2": {"rdepend": "|| ( a/c a/d ) !<a/e-2"}, "a/c-1": {}, "a/d-1": {}, "a/e-1": {}, "a/e-2": {}},
      "vdb": {"a/b-1": {}, "a/d-1": {}, "a/e-1": {}}, "targets": ["a/b"], "mode": "upgrade"},
